@@ -148,7 +148,7 @@ def build(chk):
             chk.harness(f'function:{"/".join(map(str, fs))}<-[{"/".join(map(str, r0))}],[{"/".join(map(str, r1))}]', mk_fn(fs, [r0, r1]))
 
     # ---------------------------------------------------------------- eval_dependencies: all graphs, all orders
-    def mk_deps(nd, dag_only=False, first_edges=None):
+    def mk_deps(nd, dag_only=False, first_edges=None, via_instance=False):
         dep_ids = [10 + i for i in range(nd)]
 
         def h(P):
@@ -168,6 +168,7 @@ def build(chk):
                 terms = [(j, dom(P, f'c{i}_{j}', 'positive')) for j in edges[i]] + ([(0, dom(P, f'c{i}_b', 'positive'))] if usebase[i] else [])
                 k = dom(P, f'k{i}', 'positive')
                 fns[i] = (chk.M.function('Linear', chk.M.linear(terms, k)), SymFn([([j], c) for j, c in terms] + [([], k)]))
+            declared = via_instance and bool(P.choose(2))
             x0 = dom(P, 'x0')
             st = B.state([(0, x0)] if base_present else [])
             st0 = B.state([(0, x0)] if base_present else [])   # snapshot for the witness (eval_dependencies mutates st)
@@ -204,6 +205,11 @@ def build(chk):
             def witness(model):
                 dd = {str(i): chk.hexmsg(fns[i][0], MSGF, model) for i in dep_ids}
                 case = {'op': 'eval_dependencies_via_instance', 'deps': dd, 'state': chk.hexmsg(st0, MSGS, model), 'ids': dep_ids}
+                if via_instance:
+                    spec_w = Inst(objective=None, vars=[Var(0, 3)] + ([Var(i, 3) for i in dep_ids] if declared else []))
+                    iw = B.instance(spec_w)
+                    eng.setfield(iw, 'v1::Instance', 'decision_variable_dependency', RMap('hash', False, [[i, fns[i][0]] for i in dep_ids]))
+                    case = {'op': 'evaluate_instance_orders', 'instance': chk.hexmsg(iw, MSGI, model), 'state': chk.hexmsg(st0, MSGS, model)}
                 wv = None if not solvable else {i: float(valconv.fv_to_fraction(FV('fin', wants[i]), model)) for i in dep_ids}
 
                 def judge(res):
@@ -220,19 +226,33 @@ def build(chk):
                     return False
                 return case, judge, f'dependencies {dict((i, (edges[i], usebase[i])) for i in dep_ids)} base_present={base_present}: expected {wv}'
             try:
-                res = P.it.run_body(evdep, [ref_to(deps), ref_to(st)])
+                if via_instance:
+                    spec_i = Inst(objective=None, vars=[Var(0, 3)] + ([Var(i, 3) for i in dep_ids] if declared else []))
+                    inst_i = B.instance(spec_i)
+                    eng.setfield(inst_i, 'v1::Instance', 'decision_variable_dependency', deps)
+                    res = P.it.run_body(ev_i, [ref_to(inst_i), ref_to(st)])
+                else:
+                    res = P.it.run_body(evdep, [ref_to(deps), ref_to(st)])
             except RustPanic:
                 P.fail('no-panic', witness)
                 return
             except BudgetExceeded:
                 P.fail('terminates', witness)
                 return
+            if via_instance and not base_present and res.vname == 'Ok' and solvable is False:
+                pass
             if res.vname == 'Ok':
                 P.cover('ok')
                 if not solvable:
                     P.fail('err-when-cyclic-or-ungrounded', witness)
                     return
-                got = dict((e[0], e[1]) for e in deref(eng.field(st, 'v1::State', 'entries')).entries)
+                if via_instance:
+                    sol_ = rd.solution(res.f[0].f[0])
+                    got = dict(sol_['state'] or [])
+                    if not base_present:
+                        got.pop(0, None)      # variable 0 is declared: it is reported with its default value
+                else:
+                    got = dict((e[0], e[1]) for e in deref(eng.field(st, 'v1::State', 'entries')).entries)
                 conj = [set(got) == set(dep_ids) | ({0} if base_present else set())]
                 for i in dep_ids:
                     if i in got:
@@ -244,6 +264,8 @@ def build(chk):
         return h
     for n in range(1, 4):
         chk.harness(f'eval_dependencies:{n}-dependents', mk_deps(n), regions=['ok', 'err'], hash_order='all', step_budget=200000)
+    for n in (2, 3):
+        chk.harness(f'instance-evaluate:dependency-graphs/{n}-dependents', mk_deps(n, via_instance=True), regions=['ok', 'err'], hash_order='all', step_budget=400000)
     if chk.tier == 'quick':
         # 4 dependents: every DAG whose edges go from lower to higher id (64 graphs), every iteration order
         chk.harness('eval_dependencies:4-dependents-dags', mk_deps(4, dag_only=True), regions=['ok', 'err'], hash_order='all', step_budget=200000)
